@@ -581,6 +581,14 @@ def r6(ctx, facts):
     sites = []
     for label, flag, suffix in BODY_EXTENSIONS:
         cs = [c for bb, c in b.calls() if bb in b.live_blocks and (c.name or "").endswith(suffix)]
+        if not cs:
+            # the reader handed as a function item to a helper (`read_and_consume(&mut body, types::read_string_list)`): the site is where it is invoked
+            for bb, c in b.calls():
+                if bb in b.live_blocks and (c.decl or "") in ("core::ops::function::FnOnce::call_once", "core::ops::function::FnMut::call_mut", "core::ops::function::Fn::call") and c.args:
+                    locs, _, _ = backward_slice(b, c.args[0])
+                    if any(d[0] == "stmt" and d[3][0] == "use" and d[3][1][0] == "k" and d[3][1][1] == "fn" and str(d[3][1][2]).endswith(suffix)
+                           for l in locs for d in b.defs.get(l, [])):
+                        cs.append(c)
         if len(cs) != 1:
             raise AnchorLost("parse_response_body_extensions: expected one call of %s, found %d" % (suffix, len(cs)))
         c = cs[0]
